@@ -1,4 +1,4 @@
-\* generated by hand-written template (see harness/props/c04.notes.md); deviations on = CondSameTypeNoPromotion
+\* deviations on = CondSameTypeNoPromotion   (template: harness/props/c04.notes.md)
 SPECIFICATION Spec
 CONSTANTS
   Real = FALSE
@@ -12,5 +12,6 @@ CONSTANTS
   Dev_UnevaluatedOperandFolded = FALSE
   Dev_NoDivisionGuard = FALSE
   Dev_CondSameTypeNoPromotion = TRUE
+  Dev_BareAddressMinusRejected = FALSE
 INVARIANTS Inv_Refines
 CHECK_DEADLOCK FALSE
